@@ -763,6 +763,13 @@ def run_roundtrip(case):
     if case.get("cell") is not None:
         o.check(sum(l.startswith("CRYST1") for l in lines) == 1, "box_reproduced", "exactly one CRYST1 record expected")
     check_roundtrip(o, case, f)
+    again = build_structure(case)
+    o.check(
+        arr == again and np.array_equal(np.asarray(arr.coord), np.asarray(again.coord), equal_nan=True)
+        and all(np.array_equal(arr.get_annotation(k), again.get_annotation(k)) for k in again.get_annotation_categories()),
+        "writing_does_not_modify_arguments",
+        "the structure handed to set_structure() changed",
+    )
     o.mark_nontrivial(nontrivial)
     return o
 
